@@ -904,6 +904,86 @@ fn skzg_stream(ck: &SCk) -> ark_poly_commit::streaming_kzg::CommitterKeyStream<E
     ark_poly_commit::streaming_kzg::CommitterKeyStream::from(ck)
 }
 
+/// Combinations with an inconsistent degree bound: every ORDER of two or three distinct terms over an unbounded
+/// polynomial `u`, two polynomials `a`, `b` committed under one bound and a polynomial `c` committed under another
+/// bound (coefficients 1), and the scaled single terms `r*a`: the bound of the combination is undefined, prover and
+/// verifier must refuse.  The prover side must not return a proof; the verifier side is driven with the proof of the
+/// in-domain combination `1*u` under the same label and the true value of the mixed combination.
+pub fn combination_bounds<S: Sch<Pt = <S as Sch>::F>>(rec: &mut Rec)
+where
+    S::P: DenseUVPolynomial<S::F>,
+{
+    let cfg = if S::NAME == "IPA" { KeyCfg::uni(7, 7, 1, None) } else { KeyCfg::uni(7, 6, 1, Some(vec![3, 5])) };
+    let keys = match build_keys::<S>(&cfg, rec.seed) {
+        Ok(k) => k,
+        Err(_) => return,
+    };
+    let r = rho_stream::<S::F>(rec.seed, 71, 12);
+    let mk = |i: usize| S::P::from_coefficients_slice(&r[3 * i..3 * i + 3]);
+    let polys: Vec<LP<S>> = vec![lp::<S>("u", mk(0), None, None), lp::<S>("a", mk(1), Some(3), None), lp::<S>("b", mk(2), Some(3), None), lp::<S>("c", mk(3), Some(5), None)];
+    let c = match commit_set::<S>(&keys, polys, rec.seed, 0) {
+        Ok(c) => c,
+        Err(_) => return,
+    };
+    let (pr, cr, sr) = c.refs();
+    let z = rho::<S::F>(rec.seed, 3);
+    let names = ["u", "a", "b", "c"];
+    let mut lists: Vec<Vec<(S::F, usize)>> = Vec::new();
+    for i in 0..4 {
+        for j in 0..4 {
+            if i != j {
+                if i != 0 || j != 0 {
+                    lists.push(vec![(S::F::one(), i), (S::F::one(), j)]);
+                }
+                for k in 0..4 {
+                    if k != i && k != j {
+                        lists.push(vec![(S::F::one(), i), (S::F::one(), j), (S::F::one(), k)]);
+                    }
+                }
+            }
+        }
+    }
+    for i in 1..4 {
+        lists.push(vec![(r[11], i)]);
+    }
+    // the in-domain proof the verifier side is driven with
+    let mut qs = QuerySet::new();
+    qs.insert(("lc".to_string(), ("z".to_string(), z)));
+    let mut plain = LinearCombination::<S::F>::empty("lc");
+    plain.push((S::F::one(), "u".into()));
+    let mut sponge = sponge_pre::<S::F>(0);
+    let mut rng = seed_rng(rec.seed, 20);
+    let plain_proof = do_open_comb::<S>(&keys.ck, &[plain], &pr, &cr, &qs, &mut sponge, &sr, Some(&mut rng as &mut dyn RngCore)).ok();
+    for terms in lists {
+        let desc: Vec<String> = terms.iter().map(|(cf, i)| format!("{}*{}", if cf.is_one() { "1" } else { "r" }, names[*i])).collect();
+        let id = format!("{}/combination-bounds/{}", S::NAME, desc.join("+"));
+        if !rec.take(&id) {
+            continue;
+        }
+        rec.dim("scheme", S::NAME);
+        let mut lc = LinearCombination::<S::F>::empty("lc");
+        let mut value = S::F::zero();
+        for (cf, i) in terms.iter() {
+            lc.push((*cf, names[*i].into()));
+            value += *cf * c.polys[*i].polynomial().evaluate(&z);
+        }
+        let mut sponge = sponge_pre::<S::F>(0);
+        let mut rng = seed_rng(rec.seed, 20);
+        let opened = do_open_comb::<S>(&keys.ck, &[lc.clone()], &pr, &cr, &qs, &mut sponge, &sr, Some(&mut rng as &mut dyn RngCore));
+        refused(rec, S::NAME, "open_combinations", "inconsistent-bound", &id, opened.is_ok(), format!("combination {} of an unbounded polynomial, polynomials under bound 3 and a polynomial under bound 5 was opened", desc.join(" + ")));
+        let mut ev: Evaluations<S::Pt, S::F> = Evaluations::new();
+        ev.insert(("lc".to_string(), z), value);
+        for (which, proof) in [("own", opened.ok()), ("of-plain-combination", plain_proof.clone())] {
+            if let Some(pf) = proof {
+                let mut sponge = sponge_pre::<S::F>(0);
+                let mut rng = seed_rng(rec.seed, 40);
+                let d = do_check_comb::<S>(&keys.vk, &[lc.clone()], &cr, &qs, &ev, &pf, &mut sponge, &mut rng);
+                refused(rec, S::NAME, "check_combinations", "inconsistent-bound", &id, d.accepted(), format!("combination {} accepted by the verifier (proof: {})", desc.join(" + "), which));
+            }
+        }
+    }
+}
+
 pub fn run(rec: &mut Rec) {
     crate::for_each_scheme!(S, {
         lookups::<S>(rec);
@@ -916,6 +996,9 @@ pub fn run(rec: &mut Rec) {
     degree_bounds::<SIpa>(rec);
     trim_requests::<SMar>(rec);
     trim_requests::<SSon>(rec);
+    combination_bounds::<SMar>(rec);
+    combination_bounds::<SSon>(rec);
+    combination_bounds::<SIpa>(rec);
     oversize_open::<SMar>(rec);
     oversize_open::<SSon>(rec);
     oversize_open::<SIpa>(rec);
